@@ -579,7 +579,7 @@ def sig_of(kind, mv, labels):
 def run(ctx):
     ctx.level = 'exploration'
     thorough = not ctx.quick
-    budget = ctx.budget or (112 if ctx.quick else 1140)
+    budget = ctx.budget or (200 if ctx.quick else 2400)
     k = 2 if thorough else 1
 
     named = list(state_cases(k, True, thorough))
